@@ -6,7 +6,9 @@
 (*   placeholders); enum: outcome of parsing a schema with enum [a, b]        *)
 (*   ("dup" | "ok" | "err" | "na"); red: for two numbers, whether the         *)
 (*   generator folded two default responses differing only in this bound      *)
-(*   ("folded" | "kept" | "err" | "na").                                      *)
+(*   ("folded" | "kept" | "err" | "na"); doc: the same enum read from a       *)
+(*   document text through the loader ("dup" | "ok" | "err" | "na"), f64:      *)
+(*   both are numbers with the same float64 rounding.                         *)
 EXTENDS JSONEqual, ObsLib
 CONSTANT KnownDeviations
 
@@ -30,7 +32,16 @@ Verdict(o) ==
           \* gen/reduce.go: two default responses that differ only in a numeric bound are
           \* one response exactly when the two bounds are the same number
           /\ (o.red \in {"na", "err"} \/ (o.red = "folded") = SemEqual(o.sa, o.sb))
-       THEN (IF o.ab = B(ImplEqual(o.sa, o.sb, {})) THEN "ok" ELSE "drift")
+       THEN (IF o.doc \in {"na", "err"} \/ (o.doc = "dup") = SemEqual(o.sa, o.sb)
+             THEN (IF o.ab = B(ImplEqual(o.sa, o.sb, {})) THEN "ok" ELSE "drift")
+             \* the enum read from a document text: the loader turns numbers into float64
+             \* before the comparison sees them, so different numbers with one float64
+             \* rounding are reported as duplicates
+             \* (and equal numbers spelled so that only one of them is rounded, or both leave
+             \* the float64 range, are taken for different ones); doc is observed for pairs
+             \* of numbers only, and the direct parser verdict (enum) above has already agreed
+             ELSE IF "Dev_LoaderRoundsNumbers" \in KnownDeviations THEN "known=Dev_LoaderRoundsNumbers"
+             ELSE "viol")
        ELSE "viol"
 
 VARIABLE l
